@@ -160,25 +160,42 @@ def generate(rng, tier):
         if "old_dir_rename" not in lifted:
             opts["rename_full_dirs"] = False
             opts["swap"] = False
-    n = rng.choice([2, 3, 4, 5, 6, 8]) if tier != "thorough" else rng.choice([3, 5, 8, 12])
-    mh, specs = histsim.gen_history(rng, n, opts)
-    target = rng.choice(mh.order[1:] if len(mh.order) > 1 else mh.order)
-    anc = sorted(mh.ancestry(target) - {target})
-    base = rng.choice(anc + [None]) if rng.random() < 0.85 else None
+    # a share of the runs: a long side line (>= 9 revisions) merged back, all in one v4 bundle
+    # (the installer keeps only the last 10 inventories in memory)
+    long_side = rng.random() < (0.2 if tier != "thorough" else 0.4)
+    if long_side:
+        src_fmt, tgt_fmt = rng.choice([("2a", "2a"), ("2a", "2a"), ("2a", "rich-root-pack")])
+        bfmt, old = "4", False
+        opts.update(big=False, odd_names=False)
+        n = rng.choice([3, 4, 5])
+        at = rng.randint(2, n)
+        mh, specs = histsim.gen_history(rng, n, opts, force_side={"at": at, "len": rng.choice([9, 10, 11, 13])})
+        target = rng.choice([f"m-{k}" for k in range(at, n + 1)])
+        anc = sorted(mh.ancestry("m-1"))
+        base = rng.choice(anc + [None])
+    else:
+        n = rng.choice([2, 3, 4, 5, 6, 8]) if tier != "thorough" else rng.choice([3, 5, 8, 12])
+        mh, specs = histsim.gen_history(rng, n, opts)
+        target = rng.choice(mh.order[1:] if len(mh.order) > 1 else mh.order)
+        anc = sorted(mh.ancestry(target) - {target})
+        base = rng.choice(anc + [None]) if rng.random() < 0.85 else None
     if base is None and old and "old_null_base" not in lifted and anc:
         base = rng.choice(anc)
     ncorrupt = rng.choice([3, 6, 6, 10]) if tier != "thorough" else rng.choice([6, 12, 20])
+    if long_side:
+        ncorrupt = 3
     plan = {
         "specs": specs,
         "fmts": [src_fmt, tgt_fmt],
         "bundle_format": bfmt,
         "lifted": lifted,
+        "long_side": long_side,
         "target": target,
         "base": base,
         "corrupt": [{"region": rng.choice(REGIONS), "op": rng.choice(["flip", "flip", "flip", "delete", "insert"]), "seed": rng.randrange(1 << 30)} for _ in range(ncorrupt)],
         "md": None,
     }
-    if rng.random() < 0.6:
+    if rng.random() < 0.6 and not long_side:
         # submit branch tip: any revision that does not already contain the revision to merge
         revs = [r for r in mh.order]
         pairs = [(s, t) for s in revs for t in revs if t not in mh.ancestry(s)]
@@ -471,7 +488,9 @@ def _bundle_part(sim, plan, mh, srepo, bfmt, src_fmt, tgt_fmt, strict, read_bund
     try:
         info = read_bundle(io.BytesIO(data))
         got_target = info.install_revisions(tgt)
-    except Exception as e:  # noqa: BLE001
+    except (SimCrash, KeyboardInterrupt, SystemExit):
+        raise
+    except BaseException as e:  # noqa: B036 - a pyo3 PanicException is a BaseException
         import traceback
 
         sim.fail("install", class_sig("install", "bundle-4" if bfmt == "4" else "bundle-old", e, mh, carried), f"[{src_fmt}->{tgt_fmt}] installing the untouched {bfmt} bundle ({carried}, base {base}) failed: {type(e).__name__}: {e}\n{traceback.format_exc()[-1800:]}")
